@@ -14,47 +14,47 @@ def hooks_commits():
 CHECKS = {
  "C01": ("E1 history engine (+E2 small-scope closure)", "exploration",
          "Stateful property-based testing: generated histories over all five cache kinds and corner configurations; after every step the partition views, len/cap/is_empty/contains and the per-partition accessors are checked against the bounds the statement names. Exploration is the right level: the quantifier is over histories x configurations and the invariant is cheap to evaluate at every step.",
-         "Bounded by generated sizes (capacities <= 64, 8 % long histories up to 160 / 400 ops; resize targets up to usize::MAX); inner lists are observed through the verif-hooks raw-link walk. Also: constructor capacity contracts for every construction path (inner lists included), the 2Q quota grid, and caches built by From / collect() from sources with repeated keys.",
+         "Bounded by generated sizes (capacities <= 64, 8 % long histories up to 160 / 400 ops; resize targets up to usize::MAX); inner lists are observed through the verif-hooks raw-link walk. Also: constructor capacity contracts for every construction path (inner lists included), the 2Q quota grid, and caches built by From / collect() from sources with repeated keys; large-scale engine (257 .. 131 073 entries, u64 keys: len/cap/retained accounting, no eviction while there is room, resize contract).",
          "stateful PBT (proptest), invariant oracle over state views after every step"),
  "C02": ("E1 history engine", "exploration",
-         "Generated histories with unique value tokens over TKey and String keys (borrowed &str lookups), all hashers incl. constant-zero; a shadow map of the last stored value per key judges every lookup, eviction report and removal. Caches built by From / collect() from sources with repeated keys: every resident pair must be a pair given for that key.",
+         "Generated histories with unique value tokens over TKey and String keys (borrowed &str lookups), all hashers incl. constant-zero; a shadow map of the last stored value per key judges every lookup, eviction report and removal. Caches built by From / collect() from sources with repeated keys: every resident pair must be a pair given for that key. Key universes with unsized borrowed forms (prefix slices of one buffer as reference keys, PathBuf looked up through equal Path spellings of different length). Large-scale engine: value shadow, lookup agreement, purged / removed / evicted keys are not resident.",
          "Residency is never demanded except right after a key's own put (the statement allows forgetting).",
          "stateful PBT, shadow-map oracle (last stored value / released set)"),
  "C03": ("E1 in-process with poisoning allocator, quarantine and structural audit (+ASan/Miri thorough tiers)", "exploration",
-         "Generated histories with emphasis on migrations, recycling, clone/purge/resize and dropping the cache at an arbitrary point; after every op every inner list is audited over raw links against its index and every key/value reached is checked for liveness (magic + registry); freed blocks are poisoned and quarantined. The same oracle runs on caches built by every From / collect() conversion from sources with repeated keys.",
+         "Generated histories with emphasis on migrations, recycling, clone/purge/resize and dropping the cache at an arbitrary point; after every op every inner list is audited over raw links against its index and every key/value reached is checked for liveness (magic + registry); freed blocks are poisoned and quarantined. The same oracle runs on caches built by every From / collect() conversion from sources with repeated keys (vectors, deques, lists, slices, arrays, sets, heaps, maps), at large scale (audit at checkpoints), and - liveness / quarantine / double-free detection only - under a BuildHasher that is inconsistent (reseeds itself every few calls: safe but contract-breaking user code).",
          "Native runs see freed/uninitialised reads only through the poison pattern; sanitizer and Miri tiers cover samples. Aliasing-model UB is out of scope.",
          "stateful PBT with instrumented allocator + structural audit hook; sanitizer replay"),
  "C04": ("E1 with drop-tracked keys/values and counting allocator", "exploration",
-         "Ownership ledger: after every step the set of live key/value objects must equal the set reachable through the cache (everything returned is dropped at once), double drops and reads of dropped objects are flagged, and after dropping the cache no object and no heap block allocated since construction remains. Also on caches built by conversions, and with key / value types of which only one has a destructor (all five kinds).",
+         "Ownership ledger: after every step the set of live key/value objects must equal the set reachable through the cache (everything returned is dropped at once), double drops and reads of dropped objects are flagged, and after dropping the cache no object and no heap block allocated since construction remains. Also on caches built by conversions, with key / value types of which only one has a destructor (all five kinds), and at large scale (value ledger at checkpoints, after purge and after the drop).",
          "Block counts are per thread; harness bookkeeping is pre-allocated before the baseline reading.",
          "stateful PBT, conservation-ledger oracle over object ids and allocator block counts"),
  "C05": ("E6 argument grid + E1/E7 op sequences, std and no_std builds", "exploration",
-         "Every constructor/builder/conversion over the cartesian grid of boundary arguments (exhaustive, journaled so that an aborting call is attributed) plus generated tuples; generated op sequences incl. resize to any value and extreme raw hashes on every constructed object; both feature configurations, overflow checks on. Oracle: no panic; documented-invalid arguments give the matching Err.",
+         "Every constructor/builder/conversion over the cartesian grid of boundary arguments (exhaustive, journaled so that an aborting call is attributed) plus generated tuples; generated op sequences incl. resize to any value and extreme raw hashes on every constructed object; both feature configurations, overflow checks on; SampledLFU sample sizes up to usize::MAX; thorough tier: 4.5 M-insertion runs on estimators with subnormal false-positive ratios (internal counters pass 2^32). Oracle: no panic; documented-invalid arguments give the matching Err.",
          "Sizes bounded so that objects fit in memory; panics are caught with catch_unwind.",
          "exhaustive argument grid + PBT op sequences, no-panic / matching-error oracle"),
  "C06": ("E1 + E2 (reachable-state closure)", "exploration",
-         "Model-based testing against a reference LRU list over the full RawLRU API: every return value and the full recency order (raw walk, iter(), reversed iter_lru()) after every step; E2 closes the reachable state space of capacities <= 3 (with resize). Metamorphic: the same history with seven value types (zero-sized, one byte, over-aligned, heap-owning) must give the same key-level observations.",
+         "Model-based testing against a reference LRU list over the full RawLRU API: every return value and the full recency order (raw walk, iter(), reversed iter_lru()) after every step; E2 closes the reachable state space of capacities <= 3 (with resize). Metamorphic: the same history with seven value types (zero-sized, one byte, over-aligned, heap-owning) must give the same key-level observations. Large scale: exact O(log n) reference LRU up to 131 073 entries (results, full order at checkpoints, resize contract); medium scale: capacities 64..400 with up to 2 500 operations against the model.",
          "Reference model written from the statement; E2 state caps guard against blow-up.",
          "model-based stateful PBT + exhaustive small-scope state closure"),
- "C07": ("E1 + E2", "exploration", "Model-based testing against a reference segmented-LRU model incl. put_protected, remove_lru_from_*, peek_*_from_*; both segments' order and values compared after every step; value-type independence (seven value types); inner-list capacity contracts.",
+ "C07": ("E1 + E2", "exploration", "Model-based testing against a reference segmented-LRU model incl. put_protected, remove_lru_from_*, peek_*_from_*; both segments' order and values compared after every step; value-type independence (seven value types); inner-list capacity contracts; medium-scale model runs; victim-list rule at large scale.",
          "put_protected of a new key into a full protected segment accepts both the documented LRU-put outcome and demotion.", "model-based stateful PBT + small-scope closure"),
- "C08": ("E1 + E2", "exploration", "Model-based testing against a reference 2Q model over sizes x ratio grid (quota 0, quota == size, ghost bound 1): results and all three lists compared after every step; exhaustive quota / ghost-bound grid through every constructor; value-type independence.",
+ "C08": ("E1 + E2", "exploration", "Model-based testing against a reference 2Q model over sizes x ratio grid (quota 0, quota == size, ghost bound 1): results and all three lists compared after every step; exhaustive quota / ghost-bound grid through every constructor (sizes up to 2^21); value-type independence; medium-scale model runs; victim-list rules at large scale and a feedback-driven grid that sets recent_len = quota + d (d in -2..=3) at sizes 2 .. 66 000 and checks which queue gives the victim.",
          "Ghost-overflow order pinned by the in-repo test test_2q_cache_put; remove() of a ghost key accepts all outcomes.", "model-based stateful PBT + small-scope closure"),
- "C09": ("E1 + E2", "exploration", "Model-based testing against a reference ARC model incl. p: results, resident lists and p compared exactly, ghost lists up to the silent-discard leniency the statement grants; 0 <= p <= size asserted; value-type independence.",
+ "C09": ("E1 + E2", "exploration", "Model-based testing against a reference ARC model incl. p: results, resident lists and p compared exactly, ghost lists up to the silent-discard leniency the statement grants; 0 <= p <= size asserted; value-type independence; medium-scale model runs; victim-list rules at large scale; the adaptation formula checked on a feedback-driven grid of ghost-list lengths (all exact multiples and neighbours up to 130 quick, every pair up to 240 thorough), both directions.",
          "Ghost lists may be the predicted list minus a least-recent suffix.", "model-based stateful PBT + small-scope closure"),
- "C10": ("E1 (+E2 with constant key hasher)", "exploration", "Model-based testing against a window+SLRU structure model whose admission verdicts are read from the real estimator at decision time; estimator effects bounded by an exact aged-count model (lower bound, doorkeeper membership, purge clears).",
+ "C10": ("E1 (+E2 with constant key hasher)", "exploration", "Model-based testing against a window+SLRU structure model whose admission verdicts are read from the real estimator at decision time; estimator effects bounded by an exact aged-count model (lower bound, doorkeeper membership, purge clears); a third of the cases with misaligned byte buffers; medium-scale runs.",
          "No estimate is ever predicted (time-seeded sketch); search runs with the sketch seed pinned through the hook.", "model-based stateful PBT with estimator-verdict oracle + lower-bound oracle"),
- "C12": ("E1", "exploration", "Every put-like call of every kind is judged by set arithmetic on the retained set (resident + ghosts) before/after, plus structural laws of PutResult (Eq/Clone/Copy/Debug) over all pairs of small integer payloads and of float payloads (NaN, -0.0; same-object comparison).",
+ "C12": ("E1", "exploration", "Every put-like call of every kind is judged by set arithmetic on the retained set (resident + ghosts) before/after, plus structural laws of PutResult (Eq/Clone/Copy/Debug) over all pairs of small integer payloads and of float payloads (NaN, -0.0; same-object comparison), clone_from for every pair; medium-scale runs.",
          "ARC evicts silently by design: one resident victim (least recent of recent/frequent) may vanish per put.", "stateful PBT, set-arithmetic oracle on state views; generated-pair oracle for PutResult laws"),
- "C14": ("E1 states x generated / exhaustive interleavings", "exploration", "Every iterator family of RawLRU and of each list of TwoQueueCache/AdaptiveCache is walked with generated next/next_back interleavings (all of them for short lists), clone points and writes; a two-cursor model over the raw-walk list predicts every item, size_hint, len, count and the state afterwards; the rest of every iterator is then consumed through one of 22 standard paths (last, nth, nth_back, fold, rfold, rev, skip, step_by, take, for_each, find, rfind, position, any, all, max_by_key, ...) and compared with the same path on a Vec iterator of the expected items.",
+ "C14": ("E1 states x generated / exhaustive interleavings", "exploration", "Every iterator family of RawLRU and of each list of TwoQueueCache/AdaptiveCache is walked with generated next/next_back interleavings (all of them for short lists), clone points and writes; a two-cursor model over the raw-walk list predicts every item, size_hint, len, count and the state afterwards; the rest of every iterator is then consumed through one of 22 standard paths (last, nth, nth_back, fold, rfold, rev, skip, step_by, take, for_each, find, rfind, position, any, all, max_by_key, ...) (incl. skip counts near usize::MAX) and compared with the same path on a Vec iterator of the expected items; a panic while consuming is a violation.",
          "Expected walk computed from the raw-link view of the same list.", "stateful PBT + exhaustive interleaving enumeration, two-cursor model oracle"),
  "C15": ("E1 on callback-carrying RawLRU", "exploration", "Both callback constructors, full API; per op the recorded callback invocations must equal the entries that left the list (least recent first, current values) and be empty otherwise.",
          "on_evict<K,V> is unbounded-generic: the recorder uses a type-name guarded cast.", "stateful PBT, departure-log oracle from state-view difference"),
- "C11": ("E7 estimator sequences, std and no_std builds", "exploration", "Generated TinyLFU configurations x operation sequences (all increment variants, try_reset, clear, estimate*, contains*, comparisons) with raw hashes incl. 0 and u64::MAX; an exact aged-count model gives a lower bound for every estimate (exact equality while a single key has been recorded), pins the reset schedule through the access counter, checks doorkeeper membership and that lt/le/gt/ge/eq order keys exactly as their estimates do; both feature configurations.",
+ "C11": ("E7 estimator sequences, std and no_std builds", "exploration", "Generated TinyLFU configurations x operation sequences (all increment variants, try_reset, clear, estimate*, contains*, comparisons) with raw hashes incl. 0 and u64::MAX; (a third of the cases with byte buffers at addresses that are not word aligned; comparison helpers also through overlapping prefix slices of one buffer) an exact aged-count model gives a lower bound for every estimate (exact equality while a single key has been recorded), pins the reset schedule through the access counter, checks doorkeeper membership and that lt/le/gt/ge/eq order keys exactly as their estimates do; both feature configurations.",
          "Estimates are bounded, never predicted (count-min collisions inflate them); the sketch seed is pinned through the hook during search.", "PBT over component op sequences, exact aged-count model as lower-bound / equality oracle"),
- "C13": ("metamorphic two-run differential on E1 histories", "exploration", "A generated history H runs on cache A and H with generated read-only calls inserted runs on B (a clone taken right after construction, or a second construction): every inserted call must leave the full state view (all lists, p, estimator dump) unchanged, and every result of the original ops and every later view must be identical between A and B.",
+ "C13": ("metamorphic two-run differential on E1 histories", "exploration", "A generated history H runs on cache A and H with generated read-only calls inserted runs on B (also at large scale: twin runs up to 131 073 entries comparing results, final orders and the estimator dump) (a clone taken right after construction, or a second construction): every inserted call must leave the full state view (all lists, p, estimator dump) unchanged, and every result of the original ops and every later view must be identical between A and B.",
          "Read-only call list taken from the statement (peek, peek_mut without write, contains, len/cap/is_empty, peek_lru/mru variants, get_mru, all iterators, per-segment accessors, Debug).", "metamorphic PBT (insertion of read-only calls), state-snapshot equality + two-run differential"),
- "C16": ("clone runner on E1 histories + E7 (TinyLFU)", "exploration", "Generated prefix -> clone -> equality of capacity, every segment's order/values and estimator dump -> lock-step suffix on both (results, views, callback logs) -> divergent suffix on / drop of one while the other is observed and then used; RawLRU (with and without callback), SegmentedCache, WTinyLFUCache, TinyLFU; all hashers incl. RandomState.",
+ "C16": ("clone runner on E1 histories + E7 (TinyLFU)", "exploration", "Generated prefix -> clone -> equality of capacity, every segment's order/values and estimator dump -> lock-step suffix on both (results, views, callback logs) -> divergent suffix on / drop of one while the other is observed and then used; RawLRU (with and without callback), SegmentedCache, WTinyLFUCache, TinyLFU; clone() or clone_from into a differently configured, non-empty target (the callback must be cloned too); all hashers incl. RandomState.",
          "Instrumented keys/values make shared nodes surface as dead-object accesses.", "stateful PBT, snapshot equality + lock-step differential + independence oracle"),
  "C17": ("multi-instance differential on E1 histories", "exploration", "The same generated history (incl. clone, purge, resize) runs on six instances whose inner lists use different BuildHashers (FNV seeds, identity, constant-zero, two RandomStates, mixed per list): every result, state view, callback log and release order of departing entries must be identical. Conversions: the same ordered source converted twice (differently seeded default hashers) must give the same cache and the same behaviour afterwards.",
          "W-TinyLFU instances share the key hasher and a pinned sketch seed so that the estimator verdicts are the same.", "differential PBT across BuildHashers (pairwise trace equality)"),
@@ -62,7 +62,7 @@ CHECKS = {
          "Where the exact value does not fit into an i64 nothing is demanded.", "PBT over component op sequences, exact map + sum model"),
  "C18": ("E4 fault enumeration in a supervised child process", "fault_enumeration", "For each generated history over all cache kinds, EVERY call into user code (Hash, Eq, Clone, Drop of keys and values, BuildHasher, Hasher::finish, KeyHasher, eviction callback) is a crash point: a dry run counts them, then the history is re-run once per index with a panic injected exactly there, the remaining operations run, the cache is inspected and dropped; the same for caches built by From / collect() conversions (the conversion's own user-code calls included). Oracle: no double drop, no operation on a dead/freed/uninitialised object, everything reachable is live, no write-after-free, and the process survives (a supervising parent turns a dead child into the violation, with the journaled case as replay).",
          "History length bounded (12 quick / 30 thorough); a shrinking resize after the injected panic is excluded by construction (it can spin forever: a hang, not a memory hazard) and counted; double panics are not generated.", "fault injection at every enumerated user-code call site of PBT-generated histories"),
- "C19": ("E5 program generator + rustc verdict", "exploration", "Generated client programs: every public reference- or iterator-returning method (120, checked against a source scan) x misuse templates (hold across mutation, across a reordering call, drop/outlive the cache, double &mut, copy/clone of a mutable borrow, iterator items, cross-thread) each next to a positive control; cargo check's diagnostics are the oracle. The Send/Sync table of all cache and iterator types over the complete 4x4 lattice of K and V, and of every hasher / key-hasher / callback parameter, is computed by a generated program and judged by the implications soundness needs.",
+ "C19": ("E5 program generator + rustc verdict", "exploration", "Generated client programs: every public reference- or iterator-returning method (120, checked against a source scan) x misuse templates (hold across mutation, across a reordering call, drop/outlive the cache, double &mut, copy/clone of a mutable borrow, iterator items, cross-thread) each next to a positive control; cargo check's diagnostics are the oracle; no safe constructor for the raw-pointer index key KeyRef. The Send/Sync table of all cache and iterator types over the complete 4x4 lattice of K and V, and of every hasher / key-hasher / callback parameter, (plus TinyLFU / SampledLFU parameters) is computed by a generated program and judged by the implications soundness needs. At run time: six threads call every &self method of a shared prefilled cache of each kind; every answer must be the single-threaded one (a &self method that writes makes Sync unjustified).",
          "Finite template set: cannot show that no safe program misuses the API; rustc is trusted.", "generated compile-fail probes with positive controls (compiler as oracle) + exhaustive marker table"),
 }
 
